@@ -247,6 +247,13 @@ class World:
         if form == 4:
             bound.apply_defaults()
             return fn(*bound.args, **bound.kwargs)
+        if form == 5:
+            # the documented alternative spelling of blocks / indices: a tuple instead of a
+            # comma separated string ("ph,ph" == ("ph", "ph"))
+            a2 = [tuple(a.split(",")) if isinstance(a, str) and "," in a else a for a in args]
+            k2 = {k: tuple(v.split(",")) if isinstance(v, str) and "," in v else v
+                  for k, v in kwargs.items()}
+            return fn(*a2, **k2)
         items = list(bound.arguments.items())
         if any(sig.parameters[k].kind not in (inspect.Parameter.POSITIONAL_OR_KEYWORD,)
                for k, _ in items):
@@ -391,7 +398,7 @@ def generate(seed, run, tier="quick", overrides=None, template_ids=None):
             tid = rng.choice(pool)
         st = {"op": "req", "t": tid}
         if rng.random() < 0.35:
-            st["form"] = rng.choice([1, 2, 3, 4])
+            st["form"] = rng.choice([1, 2, 3, 4, 5])
         c = cat.BY_ID[tid]["cost"]
         if aborts < max_aborts and tid != last_abort and rng.random() < 0.15:
             st["abort"] = {"kind": rng.choice(["kbi", "kbi", "mem"]), "u": rng.random()}
